@@ -184,8 +184,19 @@ class Check:
                 faults.append({"mutate": {"call": "realpath", "path": d, "nth": 1, "action": "rmtree", "target": d}})
             else:
                 nkids = sum(1 for n in world["nodes"] if n["path"].rsplit("/", 1)[0] == d)
-                faults.append({"fail": {"call": "readdir", "path": d, "errno": "EIO", "arg": rng.randint(0, max(0, nkids - 1))}})
+                # the error either hits one block of the listing (reading on works) or ends the listing there
+                faults.append({"fail": {"call": "readdir", "path": d, "errno": "EIO", "arg": rng.randint(0, max(0, nkids - 1)), "then_end": rng.random() < 0.5}})
         shape = rng.choice(["streamed", "streamed", "ordered", "count", "name", "attrs"])
+        if rng.random() < 0.08 and not ({tops[0] + "/hollow_q", tops[0] + "/full_q"} & {n["path"] for n in world["nodes"]}):
+            # an empty directory whose listing fails (the error can only strike where the listing would have ended) and a
+            # non-empty one whose listing fails before its first entry: what a column derives from the listing may be missing, never wrong
+            world["nodes"].append({"path": tops[0] + "/hollow_q", "type": "dir"})
+            world["nodes"].append({"path": tops[0] + "/full_q", "type": "dir"})
+            world["nodes"].append({"path": tops[0] + "/full_q/one", "type": "file", "content": "1"})
+            world["nodes"].append({"path": tops[0] + "/full_q/two", "type": "dir"})
+            for d_ in rng.sample(["hollow_q", "full_q"], rng.choice([1, 2])):
+                faults.append({"fail": {"call": "readdir", "path": tops[0] + "/" + d_, "errno": "EIO", "arg": 0, "then_end": rng.random() < 0.5}})
+            shape = "attrs"
         return {"sub": "A", "world": world, "roots": roots, "plan": env, "faults": faults, "shape": shape}
 
     def gen_b(self, rng, tier):
@@ -433,7 +444,7 @@ class Check:
                 q = "select path" + self.from_clause(roots) + " order by path into list"
             elif shape == "attrs":
                 # attribute columns that look at the entry themselves (is_empty lists a directory): only the path column is compared
-                q = "select path, is_empty, size" + self.from_clause(roots) + " into list"
+                q = "select path, is_empty, size, absdir" + self.from_clause(roots) + " into list"
             else:
                 q = "select " + col + self.from_clause(roots) + " into list"
             fkind = "+".join(sorted({(f.get("fail") or {}).get("call", "") + (f.get("fail") or {}).get("errno", "") + (f.get("mutate") or {}).get("action", "") for f in case["faults"]})) or "none"
@@ -473,7 +484,35 @@ class Check:
                         return int(rows[0][0])
                     except ValueError:
                         return None
-                return collections.Counter(r[0] for r in res.rows(3 if shape == "attrs" else 1))
+                return collections.Counter(r[0] for r in res.rows(4 if shape == "attrs" else 1))
+
+            def location_violation(res):
+                """absdir is the real path of the directory the entry was found in - whatever failed next to it."""
+                if shape != "attrs":
+                    return None
+                want = {}
+                for r in roots:
+                    for rel, node, lvl in gen.ref_walk(world, r["top"]):
+                        want[(r["sp"] + "/" + rel).encode("utf-8")] = (sb.root + "/" + node["path"].rsplit("/", 1)[0]).encode("utf-8")
+                for row in res.rows(4):
+                    if row[0] in want and row[3] not in (b"", want[row[0]]):
+                        return {"entry": row[0].decode("utf-8", "replace"), "absdir": row[3].decode("utf-8", "replace"), "want": want[row[0]].decode("utf-8", "replace")}
+                return None
+
+            def emptiness_violation(res):
+                """is_empty is derived from a directory's listing: when that listing fails the value may be missing, never wrong."""
+                if shape != "attrs":
+                    return None
+                by_printed = {}
+                for r in roots:
+                    for rel, node, lvl in gen.ref_walk(world, r["top"]):
+                        if node["type"] == "dir":
+                            kids = any(n2["path"].rsplit("/", 1)[0] == node["path"] for n2 in world["nodes"] if "/" in n2["path"])
+                            by_printed[(r["sp"] + "/" + rel).encode("utf-8")] = (node["path"], b"false" if kids else b"true")
+                for row in res.rows(4):
+                    if row[0] in by_printed and row[1] not in (b"", by_printed[row[0]][1]):
+                        return {"directory": by_printed[row[0]][0], "is_empty": row[1].decode(), "truth": by_printed[row[0]][1].decode()}
+                return None
 
             # control: nothing fails -> status 0, empty stderr, exact rows
             res0 = sb.run([q], plan=self.plan_with(case, faults=False))
@@ -557,6 +596,10 @@ class Check:
                                 "extra": [x.decode("utf-8", "replace") for x in sorted((got - hard).elements())[:6]]})
                 viols.append(Violation(PROP, "C17.A.rows", ["C17.A", "rows", fkind, shape], det))
             nm = gen.node_map(world)
+            # a listing that failed only for a column looking into a directory the walk itself need not enter (is_empty of a
+            # directory on the last level of the window) is that column's business: not necessarily reported
+            mid_col = {x for x in mid if not must_enter(x)}
+            mid = mid - mid_col
             if failed or mid:
                 if res.status != 1:
                     viols.append(Violation(PROP, "C17.A.status", ["C17.A", "status_not_1", fkind, shape],
@@ -575,7 +618,7 @@ class Check:
                         viols.append(Violation(PROP, "C17.A.stderr", ["C17.A", "path_not_named", fkind, shape],
                                                {"query": q, "dir": d, "stderr": res.stderr[:400].decode("utf-8", "replace")}))
                         break
-            elif not mutated and not stat_failed:
+            elif not mutated and not stat_failed and not mid_col:
                 ctx.metric("A_fault_not_reached")
                 if res.status != 0 or res.stderr:
                     viols.append(Violation(PROP, "C17.A.clean", ["C17.A", "status_without_failure", fkind, shape], {"query": q, "outcome": res.summary()}))
@@ -606,6 +649,13 @@ class Check:
                                 viols.append(Violation(PROP, "C17.A.silent", ["C17.A", "unlistable_directory_skipped_silently", "unsearchable_parent", shape],
                                                        {"query": q, "parent": P, "directory": n["path"], "status": res.status, "stderr": res.stderr[:300].decode("utf-8", "replace")}))
                                 break
+            if not mutated:
+                lv = location_violation(res)
+                if lv:
+                    viols.append(Violation(PROP, "C17.A.cols", ["C17.A", "absdir_of_another_directory", fkind, shape], dict(lv, query=q, faults=case["faults"])))
+                ev = emptiness_violation(res)
+                if ev:
+                    viols.append(Violation(PROP, "C17.A.cols", ["C17.A", "is_empty_wrong_after_failed_listing", fkind, shape], dict(ev, query=q, faults=case["faults"])))
             ctx.metric("A_dirs_failed", len(failed))
             ctx.metric("A_dirs_vanished", len(mutated))
             ctx.metric("A_midstream", len(mid))
@@ -775,7 +825,8 @@ class Check:
                     cname = c.split("(")[0]
                     if cname in XCOLS:
                         # attributes are fetched through an open file: lost with a failing open, untouched by a failing read
-                        okv = v in (b"", b"false") if "open" in hit else v == rv
+                        # (or fetched by path, without opening anything: then the value is simply the entry's own)
+                        okv = v in (b"", b"false", rv) if "open" in hit else v == rv
                     elif cname == "is_shebang":
                         okv = v in (b"false", b"") or (off >= 2 and v == rv)
                     elif cname == "contains" and rv == b"":
